@@ -15,7 +15,7 @@ func init() {
 	register(&propDef{
 		ID:    "C20",
 		Level: "other",
-		Explain: "Access-logging safety and structure: (P*) every bounds check the Go compiler's prove pass cannot eliminate in the access logger (logger.go, pattern.go) and in the request-path formatters (proxy.uint16base16, proxy.i32toa, uuid.ToString) is either discharged by a checker rule (slice bounds from Index*/LastIndex* under a dominating >= 0 test, Split indices under length facts) or matches an entry of a reviewed residual table keyed by (function, indexed object) with its reason; anything else is reported — so a new unguarded index on the logging path cannot appear silently; the logging path contains no explicit panic, type assertion other than on the pool, integer division by a computed value or map write; (U1) every calendar accessor (Year..Second, Nanosecond, Month, Day) feeding a field that prints a fixed UTC suffix is applied to a value derived from time.Time.UTC() — in the renderer or where the event handed to the renderers is built; (F1) every field named in the package documentation is a key of the fields table and both named formats use only known fields or $header.*; (O1) ServeHTTP calls Logger.Log at most once per path, after the inner handler returned, with Request/Response/RequestURL/UpstreamURL set and UpstreamAddr taken from the target URL's host; (I1) nothing in package logger can reach the response writer (no parameter, field or result of type http.ResponseWriter); (B1) the pooled buffer goes Get -> Reset -> write -> Put and the shared writer is used under the logger's mutex. Not decided: agreement of atoi, i32toa, uint16base16, uuid.ToString and the time renderers with strconv/fmt/time on every value (numeric/string equality over value domains).",
+		Explain: "Access-logging safety and structure: (P*) every bounds check the Go compiler's prove pass cannot eliminate in the access logger (logger.go, pattern.go) and in the request-path formatters (proxy.uint16base16, proxy.i32toa, uuid.ToString) is either discharged by a checker rule (slice bounds from Index*/LastIndex* under a dominating >= 0 test, Split indices under length facts) or matches an entry of a reviewed residual table keyed by (function, indexed object) with its reason; anything else is reported — so a new unguarded index on the logging path cannot appear silently; the logging path contains no explicit panic, type assertion other than on the pool, integer division by a computed value or map write; (U1) every calendar accessor (Year..Second, Nanosecond, Month, Day) feeding a field that prints a fixed UTC suffix is applied to a value derived from time.Time.UTC() — in the renderer or where the event handed to the renderers is built; (F1) every field named in the package documentation is a key of the fields table and both named formats use only known fields or $header.*; (O1) ServeHTTP calls Logger.Log at most once per path, after the inner handler returned, with Request/Response/RequestURL/UpstreamURL set and UpstreamAddr taken from the target URL's host; (I1) nothing in package logger can reach the response writer (no parameter, field or result of type http.ResponseWriter); (B1) the pooled buffer goes Get -> Reset -> write -> Put and the shared writer is used under the logger's mutex. (E1) no renderer writes a decoded URL component (url.URL.Path/Fragment) into the line; (N1) no negation of a signed value of at most 32 bits in its own width (wrong for the minimum); Not decided: agreement of atoi, i32toa, uint16base16, uuid.ToString and the time renderers with strconv/fmt/time on every value (numeric/string equality over value domains).",
 		Run:   runC20,
 		Trusted: []string{"soundness of the compiler's prove pass", "time.Time.Month() is in 1..12; time.Time accessors of a UTC time describe UTC", "the residual table in checker/c20.go (reviewed, one reason per entry)"},
 		Mutants: []mutant{
